@@ -258,7 +258,9 @@ TEXTS = ["value", "f.value", "f:value", "f.g.value", "kids.items.value2", "kids:
          "m.items.value", "f.items.value", "value2, f.value2, kids.items.value"]
 
 
-def mk_reg(kind, root, hid, dsp, gs):
+def mk_reg(kind, root, hid, dsp, gs, handlers=None):
+    if handlers is not None and handlers[hid] == "ameth":
+        dsp = 1          # coroutine-function handlers are run by the custom dispatcher of the driver
     if isinstance(gs, str):
         return [kind, root, hid, 0 if dsp == 1 else dsp, None, gs]      # dispatch="same" / "ui"
     return [kind, root, hid, dsp, gs, None]
@@ -297,7 +299,12 @@ def gen_case(rnd, ctx, maxlen):
     # model as lists, and only within one source is "equal as sets" the same as "equal as lists".
     if rnd.random() < 0.25:
         graphsets = [rnd.choice(TEXTS if bad else TEXTS[:12]) for _ in range(rnd.randint(1, 4))]
+    else:
+        # bound coroutine-function handlers (registered through apply_observers with the custom dispatcher)
+        handlers = [("ameth" if hk == "meth" and rnd.random() < 0.4 else hk) for hk in handlers]
     ctx.count("graphs-from:" + ("text" if isinstance(graphsets[0], str) else "objects"))
+    for hk in handlers:
+        ctx.count("handler:" + hk)
     incoming = set()
     for i, d in enumerate(objs):
         for j in [d.get("f"), d.get("g")]:
@@ -313,7 +320,7 @@ def gen_case(rnd, ctx, maxlen):
         r = rnd.random()
         if r < 0.38 and live_h and live_o:
             op = mk_reg("Reg", rnd.choice(live_o[:2] if rnd.random() < 0.7 else live_o), rnd.choice(live_h),
-                        rnd.randint(0, 2), rnd.choice(graphsets))
+                        rnd.randint(0, 2), rnd.choice(graphsets), handlers)
             regs.append(op)
         elif r < 0.70 and live_h and live_o:
             cand = [x for x in regs if x[1] in live_o and x[2] in live_h]
@@ -322,13 +329,14 @@ def gen_case(rnd, ctx, maxlen):
                 regs.remove(x)
                 op = ["Unreg"] + x[1:]
             else:
-                op = mk_reg("Unreg", rnd.choice(live_o), rnd.choice(live_h), rnd.randint(0, 2), rnd.choice(graphsets))
+                op = mk_reg("Unreg", rnd.choice(live_o), rnd.choice(live_h), rnd.randint(0, 2), rnd.choice(graphsets),
+                            handlers)
         elif r < 0.93 and live_o:
             i = rnd.choice(live_o)
             names = [x for x in ("value", "value2") if x in TRAITS[objs[i]["cls"]]]
             op = ["Change", i, FNUM[rnd.choice(names)]]
-        elif r < 0.97 and [x for x in live_h if handlers[x] == "meth"]:
-            hd = rnd.choice([x for x in live_h if handlers[x] == "meth"])
+        elif r < 0.97 and [x for x in live_h if handlers[x] in ("meth", "ameth")]:
+            hd = rnd.choice([x for x in live_h if handlers[x] in ("meth", "ameth")])
             live_h.remove(hd)
             op = ["CollectOwner", hd]
         else:
@@ -377,6 +385,8 @@ def gen_dyn_case(rnd, ctx, maxlen):
                 if g not in gs:
                     gs.append(g)
             graphsets.append(gs)
+    if not isinstance(graphsets[0], str):
+        handlers = [("ameth" if hk == "meth" and rnd.random() < 0.4 else hk) for hk in handlers]
     ctx.count("graphs-from:" + ("text" if isinstance(graphsets[0], str) else "objects") + "(dynamic)")
     # generation-time copy of the containers (only to produce valid indices / keys)
     kids = {i: list(d["kids"]) for i, d in enumerate(objs)}
@@ -388,7 +398,7 @@ def gen_dyn_case(rnd, ctx, maxlen):
         r = rnd.random()
         if r < 0.25:
             op = mk_reg("Reg", 0 if rnd.random() < 0.8 else rnd.randrange(n), rnd.choice(live_h), rnd.randint(0, 2),
-                        rnd.choice(graphsets))
+                        rnd.choice(graphsets), handlers)
             regs.append(op)
         elif r < 0.45:
             if regs and rnd.random() < 0.85:
@@ -396,11 +406,11 @@ def gen_dyn_case(rnd, ctx, maxlen):
                 regs.remove(x)
                 op = ["Unreg"] + x[1:]
             else:
-                op = mk_reg("Unreg", 0, rnd.choice(live_h), rnd.randint(0, 2), rnd.choice(graphsets))
+                op = mk_reg("Unreg", 0, rnd.choice(live_h), rnd.randint(0, 2), rnd.choice(graphsets), handlers)
         elif r < 0.62:
             op = ["Change", rnd.randrange(n), FNUM[rnd.choice(["value", "value2"])]]
         elif r < 0.65:
-            meths = [x for x in live_h if handlers[x] == "meth"]
+            meths = [x for x in live_h if handlers[x] in ("meth", "ameth")]
             if not meths or len(live_h) < 2:
                 continue
             hd = rnd.choice(meths)
@@ -494,6 +504,14 @@ def corpus():
     cs.append(dict(objs=objs, handlers=["meth", "func"],
                    ops=[["Reg", 0, 0, 0, None, "f.value"], ["Reg", 0, 1, 0, None, "kids.items.value"], ["Change", 1, 2],
                         ["CollectOwner", 0], ["Change", 1, 2], ["CollectObj", 0], ["Change", 1, 2], ["Change", 2, 2]]))
+    # every kind of bound-method handler: plain and `async def`; number and nested expression
+    g_v = N_("value")
+    g_fv = N_("f", True, False, [N_("value")])
+    for hk in ("meth", "ameth"):
+        for g in (g_v, g_fv):
+            cs.append(dict(objs=objs, handlers=[hk, "func"],
+                           ops=[["Reg", 0, 0, 1, [g], None], ["Reg", 0, 1, 1, [g], None], ["Change", 0, 2], ["Change", 1, 2],
+                                ["CollectOwner", 0], ["Change", 0, 2], ["Change", 1, 2], ["Unreg", 0, 1, 1, [g], None]]))
     return cs
 
 
@@ -526,7 +544,7 @@ def run(ctx):
                        "1-3 handlers (function / bound method) x 3 dispatchers (same, a custom callable, ui on the main thread); a case is "
                        "non-trivial if some step raises or calls a handler; distinct = distinct (pool, handlers, history)")
     rnd = random.Random(ctx.seed)
-    n, maxlen = (700, 10) if ctx.tier == "quick" else (9000, 20)
+    n, maxlen = (560, 10) if ctx.tier == "quick" else (9000, 20)
     if ctx.replay:
         cases = [json.load(open(ctx.replay))["replay"]["case"]]
     else:
